@@ -56,6 +56,10 @@ func printType(sb *strings.Builder, t *TypeDef, typeDirs string, fieldDirs func(
 		if len(t.Implements) > 0 {
 			sb.WriteString(" implements " + strings.Join(t.Implements, " & "))
 		}
+		if len(t.Fields) == 0 {
+			sb.WriteString(typeDirs + "\n\n")
+			return
+		}
 		sb.WriteString(typeDirs + " {\n")
 		for _, f := range t.Fields {
 			sb.WriteString("  " + f.Name)
